@@ -845,12 +845,23 @@ pub mod verif_api {
         pre: &Pre,
         node: &NodeData,
     ) -> NodeDump {
+        run_node_report(courses, participants, pre, node, false)
+    }
+
+    /// as `run_node`, with the `--report-no-solution` flag of the command line
+    pub fn run_node_report(
+        courses: &[Course],
+        participants: &[Participant],
+        pre: &Pre,
+        node: &NodeData,
+        report_no_solution: bool,
+    ) -> NodeDump {
         let node = BABNode {
             cancelled_courses: node.0.clone(),
             enforced_courses: node.1.clone(),
             shrinked_courses: node.2.clone(),
         };
-        match run_bab_node(courses, participants, &pre.0, node, false) {
+        match run_bab_node(courses, participants, &pre.0, node, report_no_solution) {
             NoSolution => NodeDump::NoSolution,
             Infeasible(kids, score) => {
                 NodeDump::Infeasible(kids.iter().map(node_data).collect(), score)
